@@ -405,6 +405,8 @@ fn builtin_exit(args: Vec<Rc<Object>>) -> Result<Rc<Object>, String> {
     }
     match args[0].as_ref() {
         Object::Integer(code) => {
+            // what was written to files so far is part of what the program did
+            FileHandle::flush_writers();
             process::exit(*code as i32);
         }
         _ => return Err(String::from("unsupported argument")),
@@ -629,7 +631,7 @@ fn builtin_open(args: Vec<Rc<Object>>) -> Result<Rc<Object>, String> {
                 Ok(file) => {
                     let writer = io::BufWriter::new(file);
                     let handle = FileHandle::new_writer(writer);
-                    Ok(Rc::new(Object::File(Rc::new(handle))))
+                    Ok(Rc::new(Object::File(handle)))
                 }
                 Err(e) => Ok(Rc::new(Object::Err(ErrorObj::IO(e)))),
             }
@@ -646,7 +648,7 @@ fn builtin_open(args: Vec<Rc<Object>>) -> Result<Rc<Object>, String> {
                 Ok(file) => {
                     let writer = io::BufWriter::new(file);
                     let handle = FileHandle::new_writer(writer);
-                    Ok(Rc::new(Object::File(Rc::new(handle))))
+                    Ok(Rc::new(Object::File(handle)))
                 }
                 Err(e) => Ok(Rc::new(Object::Err(ErrorObj::IO(e)))),
             }
@@ -662,7 +664,7 @@ fn builtin_open(args: Vec<Rc<Object>>) -> Result<Rc<Object>, String> {
                 Ok(file) => {
                     let writer = io::BufWriter::new(file);
                     let handle = FileHandle::new_writer(writer);
-                    Ok(Rc::new(Object::File(Rc::new(handle))))
+                    Ok(Rc::new(Object::File(handle)))
                 }
                 Err(e) => Ok(Rc::new(Object::Err(ErrorObj::IO(e)))),
             }
